@@ -30,7 +30,16 @@
    stack-trace lines that show (abbreviated) arguments; stages for what a
    native makes of the order of visit (the first offending member named in
    an error, a reduction that does not commute, an abbreviation); the seeded
-   random generator (Rng...). *)
+   random generator (Rng...).
+
+   Round 4: a site may SWITCH with the size of the collection: an
+   implementation that enumerates small containers with the sorted view and
+   containers above some threshold by walking the host container (a fast
+   path, an abbreviation that avoids rendering a long argument in full).
+   Table value "rawbig": raw iff the collection has more than BigAbove
+   members.  BigAbove is the model's scale of that threshold (the real one is
+   unknown: the harness sends collections of 120 and 1 100 members through
+   the sites; their elements are BigBase+1 .. , plain elements). *)
 EXTENDS Integers, Sequences, FiniteSets, SequencesExt, TLC
 
 ValOf(k) == 100 + ((k * 4) % 11)        \* distinct for k in 1..10 (and in 56..63), not monotone in k
@@ -67,6 +76,13 @@ NearBase == 22
 NearTop  == AlikeBase - 1
 IsNear(e)  == e > NearBase /\ e <= NearTop
 FoldKey(e) == IF IsNear(e) THEN NearBase + 1 + 2 * ((e - NearBase - 1) \div 2) ELSE e
+
+(* BigBase+1 .. are the members of the LARGE collections of the harness (120 / 1 100 strings or sparse ints):
+   plain elements (neither alike nor near), the int is BigBase + the rank.  A collection of more than BigAbove
+   members is "big" (a cfg may replace the definition). *)
+BigBase  == 1000
+BigAbove == 2
+IsBig(c) == Cardinality(c.elems) > BigAbove
 
 Lt(a, b)     == a < b
 LtKey(a, b)  == Key(a) < Key(b)
@@ -126,7 +142,7 @@ Sites == {
   "trace.set",          \* values.py Args.toStringAbbrev: the arguments in a stack-trace line, a set among them
   "trace.map" }         \* the same, a map among them
 
-(* The table: site -> "sorted" | "raw", plus one entry "relation" that says
+(* The table: site -> "sorted" | "raw" | "rawbig" (raw iff the collection is big), plus one entry "relation" that says
    with which relation the sorting sites (and sorted()) sort:
    "total"  = Lt, "render" = LtKey with a stable sort,
    and one entry "strings": "exact" | "folded" (near-duplicate strings tie). *)
@@ -136,6 +152,10 @@ AllSorted == Tab("sorted", "total", "exact")     \* what the property states
 AllRaw    == Tab("raw", "total", "exact")
 ByRender  == Tab("sorted", "render", "exact")    \* every site sorts, by the text
 ByFold    == Tab("sorted", "total", "folded")    \* every site sorts, strings after folding
+AllRawBig == Tab("rawbig", "total", "exact")     \* every site sorts small collections and walks big ones raw
+
+(* does the site walk the host container of c? *)
+RawAt(site, c, tab) == tab[site] = "raw" \/ (tab[site] = "rawbig" /\ IsBig(c))
 
 (* the key under which a sorting site sees an element *)
 KeyIn(tab, e) == IF tab["relation"] = "render" /\ IsAlike(e) THEN AlikeBase + 1
@@ -144,7 +164,7 @@ KeyIn(tab, e) == IF tab["relation"] = "render" /\ IsAlike(e) THEN AlikeBase + 1
 SortBy(tab, q) == IF tab["relation"] = "total" /\ tab["strings"] = "exact" THEN SortSeq(q, Lt)
                   ELSE StableBy([e \in ToSet(q) |-> KeyIn(tab, e)], q)
 
-KeysAt(site, c, tab) == IF tab[site] = "sorted" THEN SortBy(tab, c.ord) ELSE EnumRaw(c)
+KeysAt(site, c, tab) == IF RawAt(site, c, tab) THEN EnumRaw(c) ELSE SortBy(tab, c.ord)
 
 ValsOf(q)  == [i \in 1..Len(q) |-> ValOf(q[i])]
 Entries(q) == [i \in 1..(2 * Len(q)) |->
@@ -159,7 +179,7 @@ Enum(site, proj, c, tab) ==
     [] proj = "keys"       -> q
     [] proj = "vals"       -> ValsOf(q)
     [] proj = "entries"    -> Entries(q)
-    [] proj = "sortedvals" -> IF tab[site] = "sorted" THEN SortBy(tab, ValsOf(q)) ELSE ValsOf(q)
+    [] proj = "sortedvals" -> IF RawAt(site, c, tab) THEN ValsOf(q) ELSE SortBy(tab, ValsOf(q))
 
 (* ---- the seeded generator ------------------------------------------------
    functions.py: a module-level `seed`; set_seed(n) stores n; every draw does
